@@ -13,10 +13,10 @@ def check_one(hyps, goal, background, timeout_ms=20000, want_model=False, quick=
     # e-matching proofs are sensitive to the search order: a few cheap perturbations (seed, order in which the
     # hypotheses are asserted) before the long attempts.  Any `unsat` is a proof; nothing else is a verdict.
     short = max(timeout_ms // 8, 1500)
-    plan = [({'smt.mbqi': False}, max(timeout_ms // 4, 2000), 0)]
+    plan = [({'smt.mbqi': False}, max(timeout_ms // 4, 2000), 0), ({}, max(timeout_ms // 4, 2000), 0)]
     plan += [({'smt.mbqi': False, 'smt.random_seed': sd}, short, sd) for sd in (1, 2, 3)]
     if not quick:
-        plan += [({}, timeout_ms // 2, 0), ({'smt.mbqi': False, 'smt.random_seed': 7, 'smt.arith.solver': 2}, timeout_ms, 5)]
+        plan += [({}, timeout_ms // 2, 1), ({'smt.mbqi': False, 'smt.random_seed': 7, 'smt.arith.solver': 2}, timeout_ms, 5)]
     hyps = list(hyps)
     # every query runs in a z3 context of its own: the verdict of an obligation does not depend on which other
     # obligations the process discharged before (term numbering in a shared context steers the search)
